@@ -98,8 +98,33 @@ func rulePanicCensus(c *Ctx, r *Report, roots []*ssa.Function, which string) {
 	cone := c.Cone(roots...)
 	e := GetEF(c)
 	adopted := map[string]bool{}
-	for _, s := range pnSites(c, cone) {
+	// a site inside a new helper shows up under every known function that calls the helper; where it
+	// is justified under one of them (the function it was taken out of) it is the same site elsewhere
+	sites := pnSites(c, cone)
+	justifiedAs := map[ssa.Instruction]string{}
+	tableFns := map[*ssa.Function]bool{}
+	for k := range pnTable {
+		if i := strings.LastIndex(k, ":"); i > 0 {
+			for _, fn := range c.modFuncs {
+				if FnName(fn) == k[:i] {
+					tableFns[fn] = true
+				}
+			}
+		}
+	}
+	for _, s := range append(append([]pnSite(nil), sites...), pnSites(c, tableFns)...) {
+		if _, known := pnTable[s.key]; known && c.IsNew(s.ins.Parent()) {
+			justifiedAs[s.ins] = s.key
+		}
+	}
+	for _, s := range sites {
 		pos := c.InstrPos(s.ins)
+		if _, known := pnTable[s.key]; !known {
+			if k, dup := justifiedAs[s.ins]; dup && k != s.key {
+				r.Pass(rule, s.key, pos, "the same site as "+k+" (in a helper both functions call)", 1)
+				continue
+			}
+		}
 		// (a) a panic fed or guarded by an I/O error is a violation of "no call panics"
 		if p, ok := s.ins.(*ssa.Panic); ok {
 			if why := panicOnIOError(c, e, s.fn, p); why != "" {
